@@ -421,6 +421,12 @@ func (e *ssaEval) instr(fr *frame, ins ssa.Instruction) {
 				}
 				return
 			}
+			if a.k == svAddr && strings.HasPrefix(a.s, "list:") {
+				if v, ok := e.listFieldLoad(a.s); ok { // a field of a struct held in a list slot (ext_h.go)
+					set(x, v)
+					return
+				}
+			}
 			if a.k == svAddr {
 				if v, ok := e.mem[a.s]; ok {
 					set(x, v)
@@ -441,10 +447,23 @@ func (e *ssaEval) instr(fr *frame, ins ssa.Instruction) {
 					if len(keys) > 0 {
 						sort.Strings(keys)
 						var p []string
+						st := sv{k: svStruct}
 						for _, k := range keys {
 							p = append(p, k[len(a.s)+1:]+":"+e.render(e.mem[k]))
+							st.args, st.tup = append(st.args, sv{k: svString, s: k[len(a.s)+1:]}), append(st.tup, e.mem[k]) // field names and values (ext_h.go)
 						}
-						set(x, sv{k: svStruct, s: "{" + strings.Join(p, ",") + "}"})
+						st.s = "{" + strings.Join(p, ",") + "}"
+						// positional view (ext_g.go): one entry per field of the type, in declaration order,
+						// unknown where the field has no value; the names go with it (ext_h.go)
+						if pos := e.structFieldsG(a.s, x.Type()); pos != nil {
+							if stt, ok := x.Type().Underlying().(*types.Struct); ok && stt.NumFields() == len(pos) {
+								st.args, st.tup = nil, pos
+								for i := 0; i < stt.NumFields(); i++ {
+									st.args = append(st.args, sv{k: svString, s: stt.Field(i).Name()})
+								}
+							}
+						}
+						set(x, st)
 						return
 					}
 				}
@@ -573,6 +592,19 @@ func (e *ssaEval) instr(fr *frame, ins ssa.Instruction) {
 			set(x, sv{k: svAddr, s: fmt.Sprintf("%s[%d]", a.args[0].s, i.i)})
 			return
 		}
+		if a.op == "slice" && len(a.args) == 3 && a.args[0].k == svAddr && a.args[1].k == svInt && i.k == svInt && i.i >= 0 {
+			// an element of arr[lo:] is element lo+i of the array
+			set(x, sv{k: svAddr, s: fmt.Sprintf("%s[%d]", a.args[0].s, a.args[1].i+i.i)})
+			return
+		}
+		if pt, ok := x.X.Type().Underlying().(*types.Pointer); ok && a.k == svAddr && i.k == svInt {
+			// an element of an array cell: the index is checked against the array's length
+			if at, ok := pt.Elem().Underlying().(*types.Array); ok && (i.i < 0 || i.i >= at.Len()) {
+				e.why = fmt.Sprintf("index %d out of range for an array of length %d at %s", i.i, at.Len(), e.c.pos(x.Pos()))
+				e.effects = append(e.effects, ssaEffect{ins: x, what: "panic"})
+				return
+			}
+		}
 		if (a.k == svAddr || a.k == svSym) && i.known() {
 			set(x, sv{k: svAddr, s: a.s + "[" + i.String() + "]"})
 		}
@@ -581,6 +613,9 @@ func (e *ssaEval) instr(fr *frame, ins ssa.Instruction) {
 		fld := x.X.Type().Underlying().(*types.Struct).Field(x.Field)
 		if a.k == svSym || a.k == svAddr {
 			set(x, symV(a.s+"."+fld.Name()))
+		} else if a.k == svStruct && x.Field < len(a.tup) {
+			// a struct value that carries the values of its fields (ext_g.go)
+			set(x, a.tup[x.Field])
 		}
 	case *ssa.Index:
 		a, i := e.val(fr, x.X), e.val(fr, x.Index)
@@ -748,6 +783,7 @@ func (e *ssaEval) instr(fr *frame, ins ssa.Instruction) {
 				e.mem = map[string]sv{}
 			}
 			e.mem[a.s] = v
+			e.structFieldStore(a.s, v) // fields of a struct value, field of a struct in a list slot (ext_h.go)
 		}
 		e.effects = append(e.effects, ssaEffect{ins: x, what: "store", args: []sv{v}, addr: a.s})
 	case *ssa.MapUpdate:
